@@ -418,6 +418,11 @@ def execute(run):
                         worst = (ci, av, bv, float('inf'))
                         break
                     d = abs(complex(av) - complex(bv))
+                    if d != d or d in (float('inf'),):
+                        # NaN / zoo from the SUT where the reference is
+                        # finite: never "equal"
+                        worst = (ci, av, bv, float('inf'))
+                        break
                     if d > 1e-9 * scale + 1e-12 and (worst is None
                                                      or d > worst[3]):
                         worst = (ci, av, bv, d)
